@@ -7,6 +7,7 @@
 import Driver.Util
 import Saltpack.Model.Stream
 import Saltpack.Model.Classify
+import Saltpack.Model.SpecDecode
 
 open Saltpack
 
@@ -83,8 +84,29 @@ def traceCR (caps : List Nat) : (fuel : Nat) → Nat → CRState Source → List
 
 def showVer (v : Version) : String := s!"{v.major}.{v.minor}"
 
+def showR : Except String String → String
+  | .ok s => "ok " ++ s
+  | .error e => "reject " ++ e.replace " " "_"
+
 def handle (toks : List String) : Option String :=
   match toks with
+  | ["sd.enc", msg, secrets] =>
+    match ofHex msg, hexList secrets with
+    | some m, some ss => some (showR (SpecDecode.encryption RealPrims m ss))
+    | _, _ => none
+  | ["sd.att", nl, msg] =>
+    match nl.toNat?, ofHex msg with
+    | some nl, some m => some (showR (SpecDecode.attached RealPrims nl m))
+    | _, _ => none
+  | ["sd.det", nl, sigmsg, msg] =>
+    match nl.toNat?, ofHex sigmsg, ofHex msg with
+    | some nl, some sm, some m => some (showR (SpecDecode.detached RealPrims nl sm m))
+    | _, _, _ => none
+  | ["sd.sc", msg, idx, key] =>
+    match ofHex msg, idx.toNat?, key.splitOn ":" with
+    | some m, some i, ["b", k] => (ofHex k).map (fun k => showR (SpecDecode.signcryption RealPrims m i (some k) none))
+    | some m, some i, ["s", k] => (ofHex k).map (fun k => showR (SpecDecode.signcryption RealPrims m i none (some k)))
+    | _, _, _ => none
   | ["cl.bin", h] =>
     match ofHex h with
     | some b =>
